@@ -203,7 +203,7 @@ def get_total_blocks(input_file_stem):
         Number of data blocks
     """
     # glob returns files in arbitrary order; the last file is the highest numbered
-    filenames = sorted(glob.glob(f'{input_file_stem}.????.raw'))
+    filenames = sorted(glob.glob(f'{glob.escape(str(input_file_stem))}.????.raw'))
     blocks_per_file = get_blocks_per_file(input_file_stem)
     if len(filenames) == 1:
         return blocks_per_file
